@@ -191,6 +191,23 @@ def handle (j : Json) : Except String Json := do
       | .num q => [("fo", ratJ (fractionOfNumber small q))]
       | _ => []
     pure (Json.mkObj [("ok", Json.mkObj (fields ++ fo))])
+  | "xorder" =>
+    -- any two operands: Scalar/FractionScalar on a simple (table, `<unknown>` included) or the empty quantity
+    let db ← dbOf (← getStr j "db")
+    let small ← getRat j "small"
+    let dec (jo : Json) : Except String Operand := do
+      let jq ← getObj jo "q"
+      let q ← match (← getStr jq "k") with
+        | "simple" => do pure (OrdQ.simple (← decSimpleQ db jq))
+        | "empty" => pure OrdQ.empty
+        | k => throw s!"unknown quantity kind {k}"
+      match (← getStr jo "cls") with
+      | "scalar" => pure (Operand.sc (← getRat jo "value") q)
+      | "fscalar" => pure (Operand.fsc (← decFVal jo) q)
+      | c => throw s!"unknown cls {c}"
+    let a ← dec (← getObj j "a")
+    let b ← dec (← getObj j "b")
+    pure (Json.mkObj [("ok", Json.mkObj [("ord", ordJ (fun o => a.order db small o b))])])
   | "badrows" =>
     -- rows of the database that are not well-formed (the hypothesis `AllWF` of the order theorems)
     let db ← dbOf (← getStr j "db")
